@@ -14,12 +14,30 @@ NAN = float('nan')
 # helpers
 # ---------------------------------------------------------------------------
 
+SCALE_POLICY = {'scale': 1.0}
+
+
+class cell_scale:
+    """with cell_scale(1e-4): ...  -> every grid / mesh generated inside has cells that much smaller (a 10 m model in
+    degrees): absolute and relative tolerances that are harmless at degree scale are not at this one."""
+    def __init__(self, scale):
+        self.scale = scale
+
+    def __enter__(self):
+        self.old = SCALE_POLICY['scale']
+        SCALE_POLICY['scale'] = self.scale
+
+    def __exit__(self, *exc):
+        SCALE_POLICY['scale'] = self.old
+
+
 def _axis(rng, n, lo, descending, uniform):
     """n strictly monotonic coordinate values and n+1 enclosing edges (values not at edge midpoints)."""
     if uniform:
         steps = numpy.full(n, float(rng.uniform(0.3, 1.5)))
     else:
         steps = rng.uniform(0.3, 1.5, size=n)
+    steps = steps * SCALE_POLICY['scale']
     edges = lo + numpy.concatenate([[0.0], numpy.cumsum(steps)])
     frac = rng.uniform(0.25, 0.75, size=n)
     frac = numpy.where(numpy.abs(frac - 0.5) < 0.05, 0.3, frac)   # never the midpoint: "ignores stored bounds" must show
@@ -113,7 +131,7 @@ def lon_origin(rng):
 def lattice(rng, nj, ni, *, jitter=0.15, kind='affine'):
     """(nj+1, ni+1) node lattice under a random map; every quad stays valid."""
     jj, ii = numpy.meshgrid(numpy.arange(nj + 1, dtype=float), numpy.arange(ni + 1, dtype=float), indexing='ij')
-    sx, sy = rng.uniform(0.4, 1.2, size=2)
+    sx, sy = rng.uniform(0.4, 1.2, size=2) * SCALE_POLICY['scale']
     u = ii * sx
     v = jj * sy
     if jitter:
@@ -127,8 +145,8 @@ def lattice(rng, nj, ni, *, jitter=0.15, kind='affine'):
         x = math.cos(theta) * u - math.sin(theta) * v + shear * v
         y = math.sin(theta) * u + math.cos(theta) * v
     else:  # radial
-        r = 3.0 + v
-        phi = 0.1 + 0.12 * u
+        r = 3.0 * SCALE_POLICY['scale'] + v
+        phi = 0.1 + 0.12 * u / SCALE_POLICY['scale']
         x = r * numpy.cos(phi)
         y = r * numpy.sin(phi)
     x0 = lon_origin(rng)
@@ -350,7 +368,7 @@ def make_cf2d(rng, *, shoc=False, nj=None, ni=None, bounds=None, holes=None, coo
         # hole): such zero-area rings are outside what the oracle asserts (neither polygon nor hole demanded).
         from .ugrid import signed_area
         for n, ring in enumerate(m.cells):
-            if ring is not None and abs(signed_area(ring)) < 1e-6:
+            if ring is not None and abs(signed_area(ring)) < 1e-6 * SCALE_POLICY['scale'] ** 2:
                 m.skip_cells.add(n)
     else:
         lon_b = numpy.stack([nx[:-1, :-1], nx[:-1, 1:], nx[1:, 1:], nx[1:, :-1]], axis=-1)
